@@ -9,6 +9,7 @@ import (
 	"os"
 	"regexp"
 	"runtime"
+	"strconv"
 	"strings"
 	"time"
 
@@ -152,6 +153,7 @@ type fTok struct {
 	Cls  int    `json:"cls,omitempty"`
 }
 
+var reAnnounce = regexp.MustCompile(`\{(\d+)\+?\}`)
 var reTagged = regexp.MustCompile(`^(\S+) (OK|NO|BAD)( .*)?$`)
 
 type streamResult struct {
@@ -585,7 +587,19 @@ func runFraming(h *H, cuts bool) {
 		}
 		h.Eval(key)
 		h.Hist("src:" + src)
-		if reset || strings.HasPrefix(src, "oracle-only") {
+		// the model materialises an accepted APPEND payload of the announced size: streams that
+		// announce between 1 MB and the append limit (never generated on purpose, possible by
+		// mutation) are left to the oracles
+		hugeAnnounce := false
+		for _, m := range reAnnounce.FindAllStringSubmatch(string(stream), -1) {
+			if n, err := strconv.ParseUint(m[1], 10, 64); err == nil && n > 1000000 && n <= 104857600 {
+				hugeAnnounce = true
+			}
+		}
+		if hugeAnnounce {
+			h.Hist("model_skipped_large_announced_literal")
+		}
+		if reset || hugeAnnounce || strings.HasPrefix(src, "oracle-only") {
 			// after a TCP reset the server may never see data it had not read yet: only the
 			// cleanup oracles above apply, the calls are not comparable; "oracle-only" streams
 			// use commands outside the byte-level model (AUTHENTICATE, SEARCH)
